@@ -524,15 +524,19 @@ impl<K: CacheKey + 'static> AsyncCache<K> for DiskCache<K> {
 
         if let Some(entry) = entry_info {
             if entry.is_expired() {
-                // Remove expired entry
-                if let Ok(mut index) = self.index.write() {
-                    index.remove(key);
+                // Remove expired entry. The index may have changed since it was read:
+                // only an entry that is still there and still expired is removed, and the
+                // counters follow what was actually removed.
+                if let Ok(mut index) = self.index.write()
+                    && index.get(key).is_some_and(DiskCacheEntry::is_expired)
+                    && let Some(removed) = index.remove(key)
+                {
                     self.entry_count.fetch_sub(1, Ordering::Relaxed);
                     self.disk_usage
-                        .fetch_sub(entry.size_bytes as u64, Ordering::Relaxed);
+                        .fetch_sub(removed.size_bytes as u64, Ordering::Relaxed);
 
                     // Delete file
-                    let _ = fs::remove_file(&entry.file_path);
+                    let _ = fs::remove_file(&removed.file_path);
                 }
 
                 self.metrics.record_get(false, start_time.elapsed());
@@ -553,12 +557,14 @@ impl<K: CacheKey + 'static> AsyncCache<K> for DiskCache<K> {
                     Ok(Some(data))
                 }
                 Err(e) => {
-                    // File read failed - remove from index
-                    if let Ok(mut index) = self.index.write() {
-                        index.remove(key);
+                    // File read failed - remove from index (if another task has not
+                    // done so already; the counters follow what was actually removed)
+                    if let Ok(mut index) = self.index.write()
+                        && let Some(removed) = index.remove(key)
+                    {
                         self.entry_count.fetch_sub(1, Ordering::Relaxed);
                         self.disk_usage
-                            .fetch_sub(entry.size_bytes as u64, Ordering::Relaxed);
+                            .fetch_sub(removed.size_bytes as u64, Ordering::Relaxed);
                     }
 
                     self.metrics.record_get(false, start_time.elapsed());
@@ -586,7 +592,11 @@ impl<K: CacheKey + 'static> AsyncCache<K> for DiskCache<K> {
                             access_count: 1,
                         };
 
-                        if let Ok(mut index) = self.index.write() {
+                        // A put may have indexed the key (with its expiry) since the
+                        // lookup above: keep that entry, and count the key only once.
+                        if let Ok(mut index) = self.index.write()
+                            && !index.contains_key(key)
+                        {
                             index.insert(key.clone(), entry);
                             self.entry_count.fetch_add(1, Ordering::Relaxed);
                             self.disk_usage
